@@ -1,13 +1,17 @@
-//! Property -> engine / budgets.
+//! Property -> engine stages / budgets.
 
 use crate::runner::Engine;
 
-pub struct PropSpec {
-    pub id: &'static str,
+pub struct Stage {
     pub engine: fn() -> Box<dyn Engine>,
     pub quick_cases: u64,
     pub thorough_cases: u64,
-    /// wall budget in seconds for the watchdog (3x expected)
+}
+
+pub struct PropSpec {
+    pub id: &'static str,
+    pub stages: Vec<Stage>,
+    /// wall budget in seconds for the watchdog (well above the expected time)
     pub quick_budget_s: u64,
     pub thorough_budget_s: u64,
 }
@@ -16,44 +20,42 @@ pub fn specs() -> Vec<PropSpec> {
     let mut v = vec![
         PropSpec {
             id: "C11",
-            engine: || Box::new(crate::pure::PureBump),
-            quick_cases: 32_000_000,
-            thorough_cases: 1_600_000_000,
-            quick_budget_s: 300,
-            thorough_budget_s: 3600,
+            stages: vec![Stage { engine: || Box::new(crate::pure::PureBump), quick_cases: 16_000_000, thorough_cases: 1_600_000_000 }],
+            quick_budget_s: 600,
+            thorough_budget_s: 7200,
         },
         PropSpec {
             id: "C12",
-            engine: || Box::new(crate::pure::PureSize),
-            quick_cases: 32_000_000,
-            thorough_cases: 1_600_000_000,
-            quick_budget_s: 300,
-            thorough_budget_s: 3600,
+            stages: vec![Stage { engine: || Box::new(crate::pure::PureSize), quick_cases: 16_000_000, thorough_cases: 1_600_000_000 }],
+            quick_budget_s: 600,
+            thorough_budget_s: 7200,
         },
     ];
     #[cfg(feature = "big")]
     {
         macro_rules! arena {
             ($id:literal, $q:expr, $t:expr) => {
-                v.push(PropSpec {
-                    id: $id,
-                    engine: || Box::new(crate::arena_cells::ArenaEngine::new($id)),
-                    quick_cases: $q,
-                    thorough_cases: $t,
-                    quick_budget_s: 900,
-                    thorough_budget_s: 7200,
-                });
+                Stage { engine: || Box::new(crate::arena_cells::ArenaEngine::new($id)), quick_cases: $q, thorough_cases: $t }
             };
         }
-        arena!("C01", 24_000, 400_000);
-        arena!("C02", 24_000, 400_000);
-        arena!("C03", 16_000, 200_000);
-        arena!("C05", 20_000, 300_000);
-        arena!("C07", 30_000, 400_000);
-        arena!("C10", 20_000, 300_000);
-        arena!("C13", 20_000, 300_000);
-        arena!("C14", 16_000, 200_000);
-        arena!("C18", 16_000, 200_000);
+        macro_rules! prop {
+            ($id:literal, $($st:expr),+) => {
+                v.push(PropSpec { id: $id, stages: vec![$($st),+], quick_budget_s: 900, thorough_budget_s: 10800 });
+            };
+        }
+        prop!("C01", arena!("C01", 160_000, 4_000_000));
+        prop!("C02", arena!("C02", 160_000, 4_000_000));
+        prop!("C03", arena!("C03", 160_000, 4_000_000));
+        prop!("C05", arena!("C05", 160_000, 4_000_000));
+        prop!("C07", arena!("C07", 30_000, 800_000));
+        prop!("C10", arena!("C10", 120_000, 3_000_000));
+        prop!("C13", arena!("C13", 160_000, 4_000_000));
+        prop!("C14", arena!("C14", 160_000, 4_000_000));
+        prop!("C18", arena!("C18", 160_000, 4_000_000));
+        // C12: the real-arena half rides on engine A
+        if let Some(p) = v.iter_mut().find(|p| p.id == "C12") {
+            p.stages.push(arena!("C12", 120_000, 3_000_000));
+        }
     }
     v
 }
